@@ -131,6 +131,7 @@ pub open spec fn told_all<L: ChainListener>(a: Seq<(L, ListenSlot)>, b: Seq<(L, 
 pub open spec fn rest_same<L: ChainListener>(a: ChainTracker<L>, b: ChainTracker<L>) -> bool {
     a.headers == b.headers && a.tip == b.tip && a.height == b.height && a.network == b.network
     && a.trusted_oracle_pubkeys == b.trusted_oracle_pubkeys && a.allow_deep_reorgs == b.allow_deep_reorgs
+    && a.decode_state == b.decode_state
 }
 
 impl<L: ChainListener> ChainTracker<L> {
